@@ -235,6 +235,89 @@ theorem applyOp_rejected {s : GState} {loc : Loc} {lt g p : Option Str} {e : GEr
     (h : addCds s (mkCds loc lt g p) = .error e) : applyOp s (.cds loc lt g p) = s := by
   simp only [applyOp, h]
 
+/-! ### `Record.from_biopython` -/
+
+theorem addCds_inv {s s' : GState} {c : Cds} {n : Str} (hok : addCds s c = .ok (s', n)) (h : GInv s) : GInv s' := by
+  obtain ⟨h1, h2, h3, _, _⟩ := addCds_ok hok
+  unfold GInv
+  rw [h3]
+  simp only [List.map_append, List.map_cons, List.map_nil]
+  exact ⟨nodup_append_singleton h.1 h1, nodup_append_singleton h.2 h2⟩
+
+theorem addCds_safe {s s' : GState} {loc : Loc} {lt g p : Option Str} {n : Str}
+    (hok : addCds s (mkCds loc lt g p) = .ok (s', n)) (h : ∀ x ∈ s.cdss, GSafe x.1) : ∀ x ∈ s'.cdss, GSafe x.1 := by
+  obtain ⟨_, _, h3, _, name, hname, hn⟩ := addCds_ok hok
+  rw [h3]
+  intro x hx
+  rcases List.mem_append.mp hx with hx | hx
+  · exact h x hx
+  · simp only [List.mem_singleton] at hx
+    subst hx
+    have hs := (mkCds_getName_safe hname).1
+    rcases hn with rfl | rfl
+    · exact hs
+    · intro c hm
+      rcases List.mem_append.mp hm with hm | hm
+      · exact hs c hm
+      · rcases List.mem_cons.mp hm with rfl | hm
+        · exact underscore_gene_legal
+        · exact locationChecksum_safe _ c hm
+
+theorem fromBiopython_inv : ∀ (fs : List BioFeat) {s s' : GState}, fromBiopython s fs = .ok s' →
+    GInv s → (∀ x ∈ s.cdss, GSafe x.1) → GInv s' ∧ ∀ x ∈ s'.cdss, GSafe x.1
+  | [], s, s', h, hi, hs => by
+    simp only [fromBiopython, Except.ok.injEq] at h
+    exact h ▸ ⟨hi, hs⟩
+  | f :: fs, s, s', h, hi, hs => by
+    unfold fromBiopython at h
+    split at h
+    · split at h
+      · simp at h
+      · rename_i s1 n hok
+        exact fromBiopython_inv fs h (addCds_inv hok hi) (addCds_safe (by unfold cdsOfBio at hok; exact hok) hs)
+    · exact fromBiopython_inv fs h hi hs
+
+theorem truthy_map_sanitise (o : Option Str) : truthy (o.map sanitiseIdValue) = truthy o := by
+  cases o with
+  | none => rfl
+  | some x => cases x <;> rfl
+
+theorem truthy_ne_none {o : Option Str} (h : truthy o = true) : o ≠ none := by
+  cases o with
+  | none => simp [truthy] at h
+  | some _ => simp
+
+theorem getName_ne_none {c : Cds} (h : (truthy c.locusTag || truthy c.gene || truthy c.proteinId) = true) :
+    c.getName ≠ none := by
+  unfold Cds.getName
+  split
+  · rename_i h1; exact truthy_ne_none h1
+  · split
+    · rename_i h2; exact truthy_ne_none h2
+    · split
+      · rename_i h3; exact truthy_ne_none h3
+      · simp_all
+
+theorem positionalName_truthy (pre : Str) (l : Loc) : truthy (some (positionalName pre l)) = true := by
+  unfold positionalName
+  cases pre with
+  | nil =>
+    cases h : intChars l.start with
+    | nil => rfl
+    | cons _ _ => rfl
+  | cons _ _ => rfl
+
+/-- a CDS feature read from a file always has an identifier (position-based if need be) -/
+theorem cdsOfBio_named (f : BioFeat) : (cdsOfBio f).getName ≠ none := by
+  apply getName_ne_none
+  unfold cdsOfBio mkCds
+  simp only [truthy_map_sanitise]
+  split
+  · rename_i h
+    simp only [Bool.or_eq_true] at h ⊢
+    tauto
+  · simp [positionalName_truthy]
+
 theorem pairwiseDistinct_iff' {α} [BEq α] [LawfulBEq α] : ∀ {l : List α}, IdSpec.pairwiseDistinct l = true ↔ l.Nodup
   | [] => by simp [IdSpec.pairwiseDistinct]
   | x :: xs => by
@@ -243,6 +326,44 @@ theorem pairwiseDistinct_iff' {α} [BEq α] [LawfulBEq α] : ∀ {l : List α}, 
     constructor
     · exact fun ⟨h1, h2⟩ => ⟨fun hm => h1 x hm rfl, h2⟩
     · exact fun ⟨h1, h2⟩ => ⟨fun y hy heq => h1 (heq ▸ hy), h2⟩
+
+theorem addCds_noIdentifier {s : GState} {c : Cds} (h : addCds s c = .error .noIdentifier) : c.getName = none := by
+  unfold addCds at h
+  split at h
+  · rename_i hn; exact hn
+  · split at h
+    · simp at h
+    · split at h
+      · simp at h
+      · split at h
+        · simp at h
+        · split at h
+          · simp at h
+          · simp only at h
+            split at h <;> simp at h
+
+theorem fromBiopython_err : ∀ (fs : List BioFeat) {s : GState} {e : GErr}, fromBiopython s fs = .error e →
+    e = .dupLocation ∨ e = .dupName
+  | [], _, _, h => by simp [fromBiopython] at h
+  | f :: fs, s, e, h => by
+    unfold fromBiopython at h
+    split at h
+    · split at h
+      · rename_i e' herr
+        simp only [Except.error.injEq] at h
+        subst h
+        cases e' with
+        | noIdentifier => exact absurd (addCds_noIdentifier herr) (cdsOfBio_named f)
+        | dupLocation => exact Or.inl rfl
+        | dupName => exact Or.inr rfl
+      · exact fromBiopython_err fs h
+    · exact fromBiopython_err fs h
+
+theorem genesOk_of_inv {s : GState} (h : GInv s) (hs : ∀ x ∈ s.cdss, GSafe x.1) : IdSpec.genesOk s.cdss = true := by
+  unfold IdSpec.genesOk
+  simp only [Bool.and_eq_true, List.all_eq_true]
+  exact ⟨⟨pairwiseDistinct_iff'.mpr h.1, pairwiseDistinct_iff'.mpr (locs_nodup_of_keys h.2)⟩,
+    fun x hx => (gsafe_iff _).mp (hs x hx)⟩
 
 theorem genesOk_of_runOps (ops : List GOp) : IdSpec.genesOk (runOps {} ops).cdss = true := by
   have h := runOps_inv ops (s := {}) ⟨List.nodup_nil, List.nodup_nil⟩
